@@ -429,9 +429,10 @@ class Executor(object):
             if err.errno == 2:
                 msg = ("{ind}Build of %s failed.\n"
                        + "{ind}{ind}It failed with: %s.\n"
-                       + "{ind}{ind}File name: %s\n") % (name, err.strerror, err.filename)
+                       + "{ind}{ind}File name: %s\n") % (
+                           escape_braces(name), err.strerror, escape_braces(str(err.filename)))
             else:
-                msg = str(err)
+                msg = escape_braces(str(err))
             self.ui.error(msg, run_id, script, path)
             raise FailedBuilding(name, build_command) from err
 
@@ -443,7 +444,7 @@ class Executor(object):
             run_id.fail_immediately()
             run_id.report_run_failed(
                 script, return_code, "Build of " + name + " failed.")
-            self.ui.error("{ind}Build of " + name + " failed.\n", None, script, path)
+            self.ui.error("{ind}Build of " + escape_braces(name) + " failed.\n", None, script, path)
             if stdout_result and stdout_result.strip():
                 lines = escape_braces(stdout_result).split('\n')
                 self.ui.error("{ind}stdout:\n\n{ind}{ind}"
@@ -474,7 +475,8 @@ class Executor(object):
                 run.report_run_failed(None, None, None)
                 run.report_run_completed(None)
                 if is_first:
-                    self.ui.warning("{ind}Aborting remaining benchmarks using %s." % run.executable)
+                    self.ui.warning("{ind}Aborting remaining benchmarks using %s."
+                                    % escape_braces(str(run.executable)))
                     is_first = False
             else:
                 remaining_runs.append(run)
@@ -529,7 +531,8 @@ class Executor(object):
 
         if adapter is None:
             run_id.fail_immediately()
-            msg = "{ind}Couldn't find gauge adapter: %s\n" % run_id.get_gauge_adapter_name()
+            msg = "{ind}Couldn't find gauge adapter: %s\n" % escape_braces(
+                run_id.get_gauge_adapter_name())
             self.ui.error_once(msg, run_id)
 
         return adapter
@@ -565,9 +568,10 @@ class Executor(object):
             if err.errno == 2:
                 msg = ("{ind}Failed executing run\n"
                        + "{ind}{ind}It failed with: %s.\n"
-                       + "{ind}{ind}File name: %s\n") % (err.strerror, err.filename)
+                       + "{ind}{ind}File name: %s\n") % (
+                           err.strerror, escape_braces(str(err.filename)))
             else:
-                msg = str(err)
+                msg = escape_braces(str(err))
             self.ui.error(msg, run_id, cmdline, location, env)
             run_id.report_run_failed(cmdline, 0, output)
             return True
@@ -578,7 +582,8 @@ class Executor(object):
                    + "{ind}{ind}The command was not found.\n"
                    + "{ind}Return code: %d\n"
                    + "{ind}{ind}%s.\n") % (
-                       run_id.benchmark.suite.executor.name, return_code, output.strip())
+                       escape_braces(run_id.benchmark.suite.executor.name), return_code,
+                       escape_braces(output.strip()))
             self.ui.error(msg, run_id, cmdline, location, env)
             run_id.report_run_failed(cmdline, return_code, output)
             run_id.executable_missing = True
@@ -591,7 +596,7 @@ class Executor(object):
                 msg = ("{ind}Error: Could not execute %s.\n"
                        + "{ind}{ind}The file may not be marked as executable.\n"
                        + "{ind}Return code: %d\n") % (
-                           run_id.benchmark.suite.executor.name, return_code)
+                           escape_braces(run_id.benchmark.suite.executor.name), return_code)
             elif return_code == subprocess_timeout.E_TIMEOUT:
                 msg = ("{ind}Run timed out.\n"
                        + "{ind}{ind}Return code: %d\n"
